@@ -373,7 +373,7 @@ def run(tier: str, seed: int, replay: str | None = None) -> int:
         cases = [json.loads(Path(replay).read_text())["violation"]["case"]]
     else:
         cases = corpus_cases() + gen_cases(seed, n)
-    impls = pool_map(run_impl, cases, procs=8)
+    impls = pool_map(run_impl, cases, procs=oc.PROCS)
     ok = [i for i, im in enumerate(impls) if not im["error"]]
     for i, im in enumerate(impls):
         if im["error"]:
@@ -386,7 +386,7 @@ def run(tier: str, seed: int, replay: str | None = None) -> int:
             if th is False:
                 raise RuntimeError("no executable model")
             queries = phase_queries(sc, si, wd, th=th)
-            measured = pool_map(measure6, [(measure_proj(c), q) for c, q in zip(sc, queries)], procs=8)
+            measured = pool_map(measure6, [(measure_proj(c), q) for c, q in zip(sc, queries)], procs=oc.PROCS)
             verdicts = dict(zip(ok, phase_judge(sc, si, queries, measured, wd, th=th)))
         except RuntimeError as e:
             if str(e) != "no executable model":
